@@ -36,16 +36,30 @@ theorem tcp_frame_fields (tid : UInt16) (uid : UInt8) (pdu : Bytes) (hn : pdu.le
 example : Spec.tcpFrame 0x1234 0x11 [0x03, 0x00, 0x6B, 0x00, 0x03] =
     [0x12, 0x34, 0x00, 0x00, 0x00, 0x06, 0x11, 0x03, 0x00, 0x6B, 0x00, 0x03] := by decide +kernel
 
-/-- `tcp::server::encode_request`, every transaction id, unit id, encodable request and every buffer
-    that is long enough: exactly `PDU length + 7` bytes, the MBAP frame, the old bytes beyond it -/
+/-- `tcp::server::encode_request`, every transaction id, unit id, encodable request whose PDU length + 1
+    fits the 16-bit length field (`u16::try_from(len + 1)` succeeds — every standard kind,
+    `tcp_req_length_field`) and every buffer that is long enough: exactly `PDU length + 7` bytes, the
+    MBAP frame, the old bytes beyond it -/
 theorem tcp_req_layout (tid : UInt16) (uid : UInt8) (r : Request) (buf : Bytes)
-    (he : r.Encodable) (hb : r.image.length + 7 ≤ buf.length) :
+    (he : r.Encodable) (hn : r.image.length + 1 < 65536) (hb : r.image.length + 7 ≤ buf.length) :
     Tcp.encodeRequest tid uid r buf =
       .ok (r.image.length + 7, Spec.tcpFrame tid uid r.image ++ buf.drop (r.image.length + 7)) := by
   have h := Tcp.encodeAdu_eq tid uid (RequestPdu.encode r) r.image (fun b => Request.encode_eq r b he) buf
   have hlt : ¬ buf.length < r.image.length + 7 := by omega
-  rw [if_neg hlt] at h
+  have hfit : ¬ 65535 < r.image.length + 1 := by omega
+  rw [if_neg hlt, if_neg hfit] at h
   rw [tcpFrame_eq]; exact h
+
+/-- … an error (never a panic, never a frame with a wrapped length field) for EVERY buffer when the PDU
+    length + 1 does not fit the 16-bit length field -/
+theorem tcp_req_layout_oversize (tid : UInt16) (uid : UInt8) (r : Request) (buf : Bytes)
+    (he : r.Encodable) (hn : 65536 ≤ r.image.length + 1) :
+    Tcp.encodeRequest tid uid r buf = .err .bufferSize := by
+  have h := Tcp.encodeAdu_eq tid uid (RequestPdu.encode r) r.image (fun b => Request.encode_eq r b he) buf
+  have hbig : 65535 < r.image.length + 1 := by omega
+  rw [if_pos hbig] at h
+  rw [show Tcp.encodeRequest tid uid r buf = _ from h]
+  split <;> rfl
 
 /-- … and an error (never a panic, nothing else) when the buffer is shorter -/
 theorem tcp_req_layout_short (tid : UInt16) (uid : UInt8) (r : Request) (buf : Bytes)
@@ -56,19 +70,66 @@ theorem tcp_req_layout_short (tid : UInt16) (uid : UInt8) (r : Request) (buf : B
 
 /-- `tcp::server::encode_response`, successful and exception responses alike -/
 theorem tcp_rsp_layout (tid : UInt16) (uid : UInt8) (p : ResponsePdu) (buf : Bytes)
-    (he : p.Encodable) (hb : p.image.length + 7 ≤ buf.length) :
+    (he : p.Encodable) (hn : p.image.length + 1 < 65536) (hb : p.image.length + 7 ≤ buf.length) :
     Tcp.encodeResponse tid uid p buf =
       .ok (p.image.length + 7, Spec.tcpFrame tid uid p.image ++ buf.drop (p.image.length + 7)) := by
   have h := Tcp.encodeAdu_eq tid uid p.encode p.image (fun b => ResponsePdu.encode_eq p b he) buf
   have hlt : ¬ buf.length < p.image.length + 7 := by omega
-  rw [if_neg hlt] at h
+  have hfit : ¬ 65535 < p.image.length + 1 := by omega
+  rw [if_neg hlt, if_neg hfit] at h
   rw [tcpFrame_eq]; exact h
+
+theorem tcp_rsp_layout_oversize (tid : UInt16) (uid : UInt8) (p : ResponsePdu) (buf : Bytes)
+    (he : p.Encodable) (hn : 65536 ≤ p.image.length + 1) :
+    Tcp.encodeResponse tid uid p buf = .err .bufferSize := by
+  have h := Tcp.encodeAdu_eq tid uid p.encode p.image (fun b => ResponsePdu.encode_eq p b he) buf
+  have hbig : 65535 < p.image.length + 1 := by omega
+  rw [if_pos hbig] at h
+  rw [show Tcp.encodeResponse tid uid p buf = _ from h]
+  split <;> rfl
 
 theorem tcp_rsp_layout_short (tid : UInt16) (uid : UInt8) (p : ResponsePdu) (buf : Bytes)
     (he : p.Encodable) (hb : buf.length < p.image.length + 7) :
     Tcp.encodeResponse tid uid p buf = .err .bufferSize := by
   have h := Tcp.encodeAdu_eq tid uid p.encode p.image (fun b => ResponsePdu.encode_eq p b he) buf
   rw [if_pos hb] at h; exact h
+
+/-! ### the length field never wraps
+
+`encode_request` / `encode_response` convert `len + 1` with `u16::try_from` and refuse when it does not
+fit.  The statement below assumes nothing about the value (standard or custom, encodable or not, any
+payload size) or the buffer: a success always carries the exact count. -/
+
+/-- **never succeeds with a wrapped count.**  Whenever `Tcp.encodeRequest` or `Tcp.encodeResponse` returns
+    `.ok (n, out)` — for EVERY value (custom PDUs of any size included) and EVERY buffer — the frame has
+    `7 ≤ n ≤ out.length` bytes, and the two length bytes `out[4], out[5]` read big-endian are exactly
+    `n - 6` (= PDU length + 1, which is therefore at most 65535). -/
+theorem tcp_length_field_never_wraps (tid : UInt16) (uid : UInt8) (buf : Bytes) (n : Nat) (out : Bytes) :
+    (∀ r : Request, Tcp.encodeRequest tid uid r buf = .ok (n, out) →
+      7 ≤ n ∧ n - 6 ≤ 65535 ∧ n ≤ out.length ∧
+      ∃ hi lo, out[4]? = some hi ∧ out[5]? = some lo ∧ hi.toNat * 256 + lo.toNat = n - 6) ∧
+    (∀ p : ResponsePdu, Tcp.encodeResponse tid uid p buf = .ok (n, out) →
+      7 ≤ n ∧ n - 6 ≤ 65535 ∧ n ≤ out.length ∧
+      ∃ hi lo, out[4]? = some hi ∧ out[5]? = some lo ∧ hi.toNat * 256 + lo.toNat = n - 6) :=
+  ⟨fun r h => Tcp.encodeAdu_ok_length_field tid uid (RequestPdu.encode r) buf n out h,
+   fun p h => Tcp.encodeAdu_ok_length_field tid uid p.encode buf n out h⟩
+
+/-- the same read through the model's `read16`: the length field of a successfully encoded frame, as a
+    16-bit word, is the number of bytes that follow it -/
+theorem tcp_length_field_read16 (tid : UInt16) (uid : UInt8) (encPdu : Bytes → Res (Nat × Bytes))
+    (buf : Bytes) (n : Nat) (out : Bytes) (h : Tcp.encodeAdu tid uid encPdu buf = .ok (n, out)) :
+    ∃ w, read16 out 4 = .ok w ∧ w.toNat = n - 6 ∧ w.toNat + 6 = n := by
+  obtain ⟨h7, h65, _, hi, lo, h4, h5, hv⟩ := Tcp.encodeAdu_ok_length_field tid uid encPdu buf n out h
+  refine ⟨rd16 hi lo, by simp [read16, h4, h5], ?_, ?_⟩
+  · rw [rd16_toNat]; exact hv
+  · rw [rd16_toNat, hv]; exact Nat.sub_add_cancel (by omega)
+
+/-- a custom request of 65535 PDU bytes is refused whatever the buffer (before the repair it was encoded
+    with length field 0) -/
+example (d buf : Bytes) (hd : d.length = 65534) :
+    Tcp.encodeRequest 1 2 (.custom (.custom 0x41) d) buf = .err .bufferSize :=
+  tcp_req_layout_oversize 1 2 (.custom (.custom 0x41) d) buf trivial
+    (by simp only [Request.image, List.length_append, List.length_cons, List.length_nil, hd]; omega)
 
 /-- the length field is exact for every complete request PDU: it has at most 265 bytes -/
 theorem tcp_req_complete_length_field (pdu : Bytes) (hc : Spec.PduComplete .req pdu) :
@@ -179,7 +240,8 @@ theorem tcp_req_encode_decode (tid : UInt16) (uid : UInt8) (r r' : Request) (buf
       out.take (r.image.length + 7) = Spec.tcpFrame tid uid r.image ∧
       Tcp.decodeRequest (out.take (r.image.length + 7)) = .ok (some (tid, uid, r')) ∧
       Tcp.decodeRequest out = .ok (some (tid, uid, r')) := by
-  refine ⟨_, tcp_req_layout tid uid r buf he hb, ?_, ?_, tcp_req_roundtrip tid uid r r' hc hd _⟩
+  have hn : r.image.length + 1 < 65536 := (tcp_req_complete_length_field _ hc).2
+  refine ⟨_, tcp_req_layout tid uid r buf he hn hb, ?_, ?_, tcp_req_roundtrip tid uid r r' hc hd _⟩
   · rw [← tcpFrame_length tid uid r.image, List.take_left']; rfl
   · rw [← tcpFrame_length tid uid r.image, List.take_left' rfl]
     exact tcp_req_roundtrip_exact tid uid r r' hc hd
@@ -305,7 +367,7 @@ theorem tcp_rsp_encode_decode (tid : UInt16) (uid : UInt8) (r r' : Response) (bu
       out.take (r.image.length + 7) = Spec.tcpFrame tid uid r.image ∧
       Tcp.decodeResponse (out.take (r.image.length + 7)) = .ok (some (tid, uid, .ok r')) ∧
       Tcp.decodeResponse out = .ok (some (tid, uid, .ok r')) := by
-  refine ⟨_, tcp_rsp_layout tid uid (.ok r) buf he hb, ?_, ?_, tcp_rsp_roundtrip tid uid r r' hc hn hx hd _⟩
+  refine ⟨_, tcp_rsp_layout tid uid (.ok r) buf he hn hb, ?_, ?_, tcp_rsp_roundtrip tid uid r r' hc hn hx hd _⟩
   · show List.take (r.image.length + 7) (Spec.tcpFrame tid uid r.image ++ _) = _
     rw [← tcpFrame_length tid uid r.image, List.take_left']; rfl
   · show Tcp.decodeResponse (List.take (r.image.length + 7) (Spec.tcpFrame tid uid r.image ++ _)) = _
@@ -428,7 +490,7 @@ theorem tcp_exception_encode_decode (tid : UInt16) (uid : UInt8) (e : ExceptionR
     have : (0x2B : UInt8).toNat = 43 := rfl
     have : (0x80 : UInt8).toNat = 128 := rfl
     omega
-  have hl := tcp_rsp_layout tid uid (.error e) buf hf hb
+  have hl := tcp_rsp_layout tid uid (.error e) buf hf (by show 2 + 1 < 65536; omega) hb
   have e2 : (ResponsePdu.error e).image = [e.function.value + 0x80, e.exception.val] := rfl
   rw [e2] at hl
   have h9 : (Spec.tcpFrame tid uid [e.function.value + 0x80, e.exception.val]).length = 9 :=
